@@ -8,6 +8,7 @@ CONSTANTS
  MaxFaults = 3
  MaxSeeks = 1
  Conc = 2
+ RelNR = TRUE
  FixLeak = TRUE
  PrioAsc = TRUE
  Rs = {3}
@@ -17,5 +18,5 @@ CONSTANTS
  Confs <- EqConfs
 INIT MCInit
 NEXT MCNext
-INVARIANTS Ok NoThrottleBlock
+INVARIANTS Ok NoThrottleBlock SlotsAccounted
 CHECK_DEADLOCK FALSE
